@@ -1011,7 +1011,7 @@ def check_copies_fold(run, tree):
     evd = _ev(tree, hooks, DS_Q + ".__init__")
     ds = evd.instantiate(tree.cls(DS_Q), [], {}, None)
     call_method(tree, hooks, ds, "__setitem__", "gas", make_group(tree, hooks))
-    ds._attrs["meta"] = {"time": "T", "nested": {"k": 1}}
+    ds._attrs["meta"] = {"time": "T", "nested": {"k": 1, "deeper": [1, {"leaf": 2}]}}
     gobj = ds._attrs["groups"]["gas"]
     for label, fn in variants(ds):
         construct = "%s::%s" % (DS_Q, label)
